@@ -227,3 +227,27 @@ gen_c07 = gen_mixed({"connect": 4, "disconnect": 7, "gg": 8, "lw": 8, "set": 14,
                     nclients=3, need_connect=True)
 gen_c08 = gen_mixed({"connect": 3, "disconnect": 5, "gg": 6, "lw": 6, "set": 14, "cset": 8, "delete": 8, "pdelete": 10,
                      "publish": 8, "spubinit": 5, "spub": 6, "pget": 2}, nclients=2, need_connect=True, sys_targets=True)
+
+
+def enum_c04(depth, nfiles=8):
+    """C04: every pattern over {a,b,'',?,#} up to `depth` against a store holding every key
+    over {a,b,''} up to `depth`: import all keys, live-only psubscribe of the pattern, touch
+    every key (which ones are notified?), pget, pdelete, read the rest back."""
+    import itertools
+    ksegs, psegs = ["a", "b", ""], ["a", "b", "", "?", "#"]
+    keys = [list(k) for d in range(1, depth + 1) for k in itertools.product(ksegs, repeat=d) if list(k) != [""]]
+    pats = [list(p) for d in range(1, depth + 1) for p in itertools.product(psegs, repeat=d)]
+    nodes = {(): {"k": "none", "v": "", "n": 0}}
+    for k in keys:
+        for i in range(len(k)):
+            nodes.setdefault(tuple(k[:i]), {"k": "none", "v": "", "n": 0})
+        nodes[tuple(k)] = {"k": "plain", "v": "v", "n": 0}
+    tree = [{"p": list(p), "e": e} for p, e in sorted(nodes.items())]
+    files = [[] for _ in range(nfiles)]
+    for i, p in enumerate(pats):
+        w = [{"op": "import", "tree": tree},
+             {"op": "psub", "c": "c1", "tid": 1, "pat": p, "unique": False, "live": True}]
+        w += [{"op": "set", "key": k, "val": "w", "c": "c2"} for k in keys]
+        w += [{"op": "pget", "pat": p}, {"op": "pdelete", "pat": p, "c": "c2", "probe": True}, {"op": "pget", "pat": ["#"]}]
+        files[i % nfiles].append(w)
+    return {"hdr": True, "meaning": {}, "proj": False}, files, len(pats), len(keys)
